@@ -167,11 +167,13 @@ def run_sequence(cfg, w, h, ops):
             # what Screen.parse_input does when it reports 'window resize' to the main loop
             rig.screen._resized = False
             ev.append({"t": "resize", "w": cw, "h": chh})
-    return {"w": w, "h": h, "bib": bool(bib), "cfg": [colors, bce, enc, bib, pal_first, none_entry], "ops": ops, "ev": ev}
+    # nobce: the display was told the terminal erases to its default background, and is judged on such a terminal
+    return {"w": w, "h": h, "bib": bool(bib), "nobce": 0 if bce else 1, "cfg": [colors, bce, enc, bib, pal_first, none_entry], "ops": ops, "ev": ev}
 
 
 ATTRS_COMMON = [None, "p_red", "p_brt", "p_und", "p_hi", "p_so", "p_st", "nope", ("spec", "dark cyan,italics", "brown"),
-                ("spec", "default,strikethrough", "default"), ("spec", "yellow,bold,underline", "dark magenta")]
+                ("spec", "default,strikethrough", "default"), ("spec", "yellow,bold,underline", "dark magenta"),
+                ("spec", "light gray", "black")]      # an explicit black background is not the terminal's default background
 
 
 def alphabet(enc):
@@ -216,6 +218,8 @@ def rand_sequence(rng, cfg):
     enc = cfg[2]
     depth = cfg[0]
     attrs = list(ATTRS_COMMON)
+    if depth in (88, 256):
+        attrs.append(("spec", "h9", "h0"))       # colour number 0 chosen by number (at 2^24 low numbers become RGB values: C18)
     if depth >= 256:
         attrs.append(("spec", "h100", "h200"))
     if depth == 2 ** 24:
